@@ -44,6 +44,7 @@ const callTimeoutMs = 1000
 type reg struct {
 	n      int
 	static bool // endpoints are published with static weights 100, 8, 40, ...
+	shift  *int // event "rew": the registry rotates the weights among the endpoints (nil: 0)
 }
 
 var staticWeights = []int32{100, 8, 40}
@@ -53,7 +54,11 @@ func (r reg) eps() []endpointf.EndpointF {
 	for i := 0; i < r.n; i++ {
 		e := endpointf.EndpointF{Host: fmt.Sprintf("10.0.0.%d", i+1), Port: int32(basePort + i), Timeout: 3000, Istcp: 1, Weight: 100}
 		if r.static {
-			e.Weight, e.WeightType = staticWeights[i%len(staticWeights)], 1
+			sh := 0
+			if r.shift != nil {
+				sh = *r.shift
+			}
+			e.Weight, e.WeightType = staticWeights[(i+sh)%len(staticWeights)], 1
 		}
 		out = append(out, e)
 	}
@@ -165,6 +170,7 @@ type world struct {
 	keyCached   string
 	hashRoute   map[string]int
 	static      bool
+	shift       *int
 	lastPB      []int64 // time the endpoint was blocked or last probed
 	reachSince  []int64 // time since which the endpoint's server accepts connections
 }
@@ -299,6 +305,14 @@ func (w *world) apply(ev string) {
 			vm.Sleep(1e6)
 		}
 		vm.Log("t=%d %s", w.now(), ev)
+	case ev == "rew":
+		// the registry publishes other weights for the same endpoints; the manager refreshes
+		*w.shift++
+		if err := tars.VerifRefresh(w.sp); err != nil {
+			w.bad = append(w.bad, "refresh-failed\n"+err.Error())
+		}
+		w.hashRoute = map[string]int{} // routing is a function of code, set and weights
+		vm.Log("t=%d rew shift=%d", w.now(), *w.shift)
 	case strings.HasPrefix(ev, "adv"):
 		sec, _ := strconv.Atoi(ev[3:])
 		vm.Sleep(int64(sec) * 1e9)
@@ -357,7 +371,7 @@ func (w *world) expectedRoute(ev string, before []tars.VerifEpState) (int, bool)
 	code64, _ := strconv.ParseUint(ev[5:], 10, 32)
 	var act []endpoint.Endpoint
 	allStatic := true
-	for i, e := range (reg{w.n, w.static}).eps() {
+	for i, e := range (reg{w.n, w.static, w.shift}).eps() {
 		if i < len(before) && before[i].InActive {
 			ep := endpoint.Tars2endpoint(e)
 			act = append(act, ep)
@@ -370,7 +384,7 @@ func (w *world) expectedRoute(ev string, before []tars.VerifEpState) (int, bool)
 		return 0, false
 	}
 	// the weight switch follows the whole registry list, as the manager derives it
-	for _, e := range (reg{w.n, w.static}).eps() {
+	for _, e := range (reg{w.n, w.static, w.shift}).eps() {
 		if e.WeightType != 1 {
 			allStatic = false
 		}
@@ -428,9 +442,10 @@ func runHistory(n int, hist []string) (w *world) {
 	if static {
 		hist = hist[1:]
 	}
+	shift := new(int)
 	comm := tars.VerifNewCommunicator(tars.VerifClientOpts{AsyncInvokeTimeout: callTimeoutMs, ReadTimeout: 20 * time.Second, WriteTimeout: -1,
-		DialTimeout: 500 * time.Millisecond, Registrar: reg{n, static}, RefreshInterval: 3600000})
-	w = &world{n: n, start: vm.Now(), hashRoute: map[string]int{}, static: static}
+		DialTimeout: 500 * time.Millisecond, Registrar: reg{n, static, shift}, RefreshInterval: 3600000})
+	w = &world{n: n, start: vm.Now(), hashRoute: map[string]int{}, static: static, shift: shift}
 	for i := 0; i < n; i++ {
 		s := &server{idx: i, addr: fmt.Sprintf("10.0.0.%d:%d", i+1, basePort+i)}
 		s.listen()
@@ -459,7 +474,9 @@ var longHistories = map[string][]string{
 	"ratio-rule":                           {"call", "call", "set0=r", "call", "call", "call", "call", "set0=h", "adv1", "call", "call", "adv60", "call", "call"},
 	"flapping":                             {"set0=r", "call", "call", "call", "call", "set0=h", "call", "call", "adv5", "set0=r", "call", "call", "call", "call", "call", "call", "adv1", "adv5", "call"},
 	"hashed-static-weights":                {"static", "hcall7", "mcall7", "hcall123456", "mcall8", "hcall99", "mcall9", "hcall4000000000", "mcall10", "hcall2000000000", "mcall11", "hcall3000000000", "mcall12", "call", "call", "set1=r", "hcall7", "mcall7", "hcall7", "mcall8", "hcall7", "mcall9", "hcall7", "mcall7", "hcall7", "mcall7", "adv5", "adv1", "hcall7", "mcall7", "hcall123456", "mcall8"},
-	"hashed":                               {"set1=r", "hcall7", "hcall7", "hcall123456", "hcall7", "hcall99", "hcall7", "hcall7", "hcall99", "hcall7", "hcall7", "adv5", "adv1", "hcall7", "hcall99", "set1=h", "adv30", "hcall7", "hcall99"},
+	"hashed-reweighted": {"static", "hcall7", "mcall7", "mcall8", "mcall9", "hcall99", "rew", "hcall7", "mcall7", "mcall8", "mcall9", "mcall10", "mcall11", "hcall99", "hcall123456", "hcall4000000000",
+		"rew", "mcall7", "mcall8", "mcall9", "hcall7", "hcall99", "hcall2000000000"},
+	"hashed": {"set1=r", "hcall7", "hcall7", "hcall123456", "hcall7", "hcall99", "hcall7", "hcall7", "hcall99", "hcall7", "hcall7", "adv5", "adv1", "hcall7", "hcall99", "set1=h", "adv30", "hcall7", "hcall99"},
 }
 
 func alphabet(n int, thorough bool) []string {
@@ -568,6 +585,26 @@ func main() {
 		n3 := [][]string{{"set0=r", "set1=s", "call", "call", "call", "call", "call", "call", "call", "call", "call", "call", "call", "call", "call", "call", "call", "adv5", "adv1", "call", "call", "call", "adv30", "set0=h", "adv30", "call", "call", "call"}}
 		for _, h := range n3 {
 			cases = append(cases, e1.Case{Sc: histScenario(3, h, nil), Opt: vm.Options{Bound: 1, StrictDev: true}, Budget: budget, MinOutcomes: 1})
+		}
+	}
+	// three endpoints, two of them blocked one after the other (first a middle one of the active list, then
+	// the last): hashed calls must then go where selectors built over the one remaining endpoint send them
+	for _, order := range [][2]int{{0, 2}, {1, 2}, {2, 0}, {0, 1}} {
+		var h []string
+		for _, dead := range order {
+			h = append(h, fmt.Sprintf("set%d=r", dead))
+			for k := 0; k < 15; k++ {
+				h = append(h, "call")
+			}
+			h = append(h, "adv5", "adv1", "call", "call", "call")
+		}
+		h = append(h, "mcall7", "mcall8", "mcall9", "mcall10", "hcall7", "hcall99", "hcall123456", "call", "call")
+		for _, static := range []bool{false, true} {
+			hh := h
+			if static {
+				hh = append([]string{"static"}, h...)
+			}
+			cases = append(cases, e1.Case{Sc: histScenario(3, hh, nil), Opt: vm.Options{Bound: 0, StrictDev: true}, Budget: budget, MinOutcomes: 1})
 		}
 	}
 	for _, h := range hists {
